@@ -176,32 +176,43 @@ RETCODE __wrap_adfReadDumpSector(struct AdfDevice * const dev, const uint32_t n,
    tracked from the successful root-block writes (and read from the device the first time).  Violations go to stderr
    (they are not part of the protocol stream that is compared with the model). */
 static long g_bmorder_violations = 0;
+#ifndef MAXDEV
+#define MAXDEV 8
+#endif
+static struct AdfDevice *g_dev[MAXDEV];       /* tentative definitions; the tables are filled by the op loop below */
+static int g_mounted[MAXDEV][16];
 static void bmorder_watch(struct AdfDevice * const dev, const uint32_t n, const uint8_t * const buf) {
-    static struct { struct AdfVolume *vol; int known; uint32_t flag; } st[64];
-    if (!dev || !dev->volList) return;
-    for (int v = 0; v < dev->nVol && v < 64; v++) {
-        struct AdfVolume *vol = dev->volList[v];
-        if (!vol || !vol->mounted || !vol->bitmapBlocks) continue;
-        if (st[v].vol != vol) { st[v].vol = vol; st[v].known = 0; }
-        uint32_t rootSec = (uint32_t)(vol->firstBlock + vol->rootBlock);
-        if (n == rootSec) {
-            st[v].flag = ((uint32_t)buf[312] << 24) | ((uint32_t)buf[313] << 16) | ((uint32_t)buf[314] << 8) | buf[315];
-            st[v].known = 1;
-            continue;
-        }
-        for (uint32_t i = 0; i < vol->bitmapSize; i++) {
-            if ((uint32_t)(vol->bitmapBlocks[i] + vol->firstBlock) != n) continue;
-            if (!st[v].known) {
-                uint8_t rb[512];
-                if (__real_adfReadDumpSector(dev, rootSec, 512, rb) == RC_OK) {
-                    st[v].flag = ((uint32_t)rb[312] << 24) | ((uint32_t)rb[313] << 16) | ((uint32_t)rb[314] << 8) | rb[315];
-                    st[v].known = 1;
-                }
+    /* only volumes the HARNESS has mounted (adfMount returned them) are looked at: while a device is being created or
+       mounted the library's own tables may not be initialised yet */
+    static struct { struct AdfVolume *vol; int known; uint32_t flag; } st[MAXDEV][16];
+    if (!dev) return;
+    for (int d = 0; d < MAXDEV; d++) {
+        if (g_dev[d] != dev) continue;
+        for (int v = 0; v < 16; v++) {
+            if (!g_mounted[d][v] || !dev->volList || v >= dev->nVol) continue;
+            struct AdfVolume *vol = dev->volList[v];
+            if (!vol || !vol->mounted || !vol->bitmapBlocks) continue;
+            if (st[d][v].vol != vol) { st[d][v].vol = vol; st[d][v].known = 0; }
+            uint32_t rootSec = (uint32_t)(vol->firstBlock + vol->rootBlock);
+            if (n == rootSec) {
+                st[d][v].flag = ((uint32_t)buf[312] << 24) | ((uint32_t)buf[313] << 16) | ((uint32_t)buf[314] << 8) | buf[315];
+                st[d][v].known = 1;
+                continue;
             }
-            if (st[v].known && st[v].flag != 0) {
-                g_bmorder_violations++;
-                fprintf(stderr, "BMORDER: bitmap page %u of volume %d (sector %u) rewritten while the on-disk bitmap-valid flag is %08x (not BM_INVALID)\n",
-                        i, v, n, st[v].flag);
+            for (uint32_t i = 0; i < vol->bitmapSize; i++) {
+                if ((uint32_t)(vol->bitmapBlocks[i] + vol->firstBlock) != n) continue;
+                if (!st[d][v].known) {
+                    uint8_t rb[512];
+                    if (__real_adfReadDumpSector(dev, rootSec, 512, rb) == RC_OK) {
+                        st[d][v].flag = ((uint32_t)rb[312] << 24) | ((uint32_t)rb[313] << 16) | ((uint32_t)rb[314] << 8) | rb[315];
+                        st[d][v].known = 1;
+                    }
+                }
+                if (st[d][v].known && st[d][v].flag != 0) {
+                    g_bmorder_violations++;
+                    fprintf(stderr, "BMORDER: bitmap page %u of volume %d (sector %u) rewritten while the on-disk bitmap-valid flag is %08x (not BM_INVALID)\n",
+                            i, v, n, st[d][v].flag);
+                }
             }
         }
     }
@@ -224,12 +235,13 @@ RETCODE __wrap_adfWriteDumpSector(struct AdfDevice * const dev, const uint32_t n
 /* --------------------------------------------------------- native mem device */
 struct memdev { uint8_t *data; size_t size; };
 static struct memdev g_mem[16];
+static int g_wprotect[16];      /* write-protect tab of the native device: the driver forces the device read-only */
 static RETCODE nat_init(struct AdfDevice * const dev, const char * const name, const BOOL ro) {
     int k = atoi(name + 4);
     if (k < 0 || k >= 16 || !g_mem[k].data) return RC_ERROR;
     dev->nativeDev = &g_mem[k];
     dev->size = (uint32_t) g_mem[k].size;
-    dev->readOnly = ro;
+    dev->readOnly = ro || g_wprotect[k];
     return RC_OK;
 }
 static RETCODE nat_release(struct AdfDevice * const dev) { (void)dev; return RC_OK; }
@@ -245,6 +257,7 @@ static RETCODE nat_read(struct AdfDevice * const dev, const uint32_t n, const un
 static RETCODE nat_write(struct AdfDevice * const dev, const uint32_t n, const unsigned size, const uint8_t * const buf) {
     struct memdev *m = dev->nativeDev;
     g_writes_op++;
+    if (g_wprotect[m - g_mem]) { tprintf("W %u %u wp\n", n, size); return RC_ERROR; }   /* a write reached a protected device */
     if (fault_now()) { tprintf("W %u %u !\n", n, size); return RC_ERROR; }
     if ((uint64_t)n*512 + size > m->size) { tprintf("W %u %u e\n", n, size); return RC_ERROR; }
     memcpy(m->data + (size_t)n*512, buf, size);
@@ -436,6 +449,10 @@ int main(int argc, char **argv) {
             if (!g_dev[d]) { printf("= no-dev\n.\n"); fflush(g_out); continue; }
             g_inlib = 1; adfCloseDev(g_dev[d]); g_inlib = 0;
             g_dev[d] = NULL; memset(g_mounted[d], 0, sizeof g_mounted[d]);
+            printf("= ok\n");
+        }
+        else if (IS("wprotect")) {         /* wprotect d 0|1 : write-protect tab of a native device */
+            int d = (int)I(1); if (d >= 0 && d < 16) g_wprotect[d] = (int)I(2);
             printf("= ok\n");
         }
         else if (IS("opendev")) {          /* opendev d ro : adfMountDev */
